@@ -189,7 +189,7 @@ template <class G> void checkC11(const G &g, const Model &m, Fail &f) {
                 if (got != want) f.add("c11.all", "findAllVertexPredecessors: predecessors of " + std::to_string(v) + " are " + seqStr(got) + ", expected exactly " + seqStr(want) + ", " + where);
             }
         // single geodesics
-        auto validPath = [&](const std::list<VertexIndex> &p, unsigned t) -> std::string {
+        auto validPath = [&](const algorithms::Path &p, unsigned t) -> std::string {
             if (d[t] == Ref::INF) return p.empty() ? "" : "non-empty path " + seqStr(p) + " to an unreachable vertex";
             std::vector<unsigned> v(p.begin(), p.end());
             if (t == s) return (v.size() == 1 && v[0] == s) ? "" : "path to the source itself is " + seqStr(v) + ", expected [" + std::to_string(s) + "]";
